@@ -158,6 +158,23 @@ def check_case(case, ctx):
             raise
         if type(ex).__name__ != 'EmptyNegativeAssertionException':
             violation('wrong_exception_for_empty_negative_assertion', case, f'{dsl.render(neg)} raised {type(ex).__name__}: {ex}', ctx)
+    # (2b) documented "returned unchanged" laws, as emitted text: a positive lookaround on an empty assertion returns
+    # the match pattern unchanged, an empty later alternative is dropped - also n-ary, on every sub-tree X
+    nodes = list(dsl.walk(tree))
+    for (idx, kind, sp, e, aux) in ins:
+        if kind not in ('look_pos', 'alt_later', 'nary'):
+            continue
+        x = nodes[idx % len(nodes)]
+        w = wrap(x, kind, sp, e, aux)
+        if w[0] == 'cat':
+            continue
+        try:
+            sx, sw = str(dsl.build(x)), str(dsl.build(w))
+        except Exception:  # noqa: BLE001 - X alone not buildable (e.g. it is only legal inside its parent): skip
+            continue
+        if sx != sw:
+            violation('empty_operand_not_dropped', case, f'{dsl.render(w)} printed {sw!r} but {dsl.render(x)} prints {sx!r}: the empty '
+                      f'{"assertion" if w[0] == "look" else "alternative"} must leave the pattern unchanged', ctx)
     # (3) T+ is equivalent to T
     plus, below = apply_insertions(tree, ins)
     try:
